@@ -6,7 +6,8 @@ EXTENDS Naturals, Sequences, ScnRand, TLC, Json
 CONSTANT Count
 VARIABLE n
 Ops == << "get", "get-filter", "get-xpath", "get-config", "get-config-filter", "get-config-defaults", "edit-config", "copy-config",
-          "delete-config", "lock", "unlock", "validate", "commit", "commit-confirmed", "commit-persist", "discard", "rpc" >>
+          "delete-config", "lock", "unlock", "validate", "commit", "commit-confirmed", "commit-persist", "discard", "rpc",
+          "commit-persist-id", "commit-all", "commit-timeout" >>       \* every commit parameter alone and all together
 ArgKinds == << "ascii", "multibyte", "long", "attrs", "namespaces", "empty-elements", "comment-before-close", "cdata", "pi", "whitespace-only", "mixed" >>
 Stores == << "running", "candidate", "startup" >>
 Scn(m) == LET k == 2 + Below(5, m, 1) IN
